@@ -175,6 +175,17 @@ For the help of a specific family named <formula> type one of
 """
 
 
+class _SeedAction(argparse.Action):
+    """Seed the random generator as soon as '--seed' is parsed
+
+    Graph arguments (gnp, gnm, glrd, plantclique, ...) are built while
+    the rest of the command line is parsed, hence the generator must be
+    seeded before that happens."""
+    def __call__(self, parser, namespace, values, option_string=None):
+        setattr(namespace, self.dest, values)
+        random.seed(values)
+
+
 def setup_command_line_parsers(progname, fhelpers):
     """Create the parser for formula and transformation arguments.
 
@@ -253,7 +264,7 @@ def setup_command_line_parsers(progname, fhelpers):
                         metavar="<seed>",
                         default=None,
                         type=int,
-                        action='store')
+                        action=_SeedAction)
     g = parser.add_mutually_exclusive_group()
     g.add_argument('--verbose',
                    '-v',
